@@ -619,10 +619,13 @@ func bidiInitiator() transcript {
 	}
 }
 
-func componentInitiator() transcript {
+// componentInitiator: ack is how the server spells its acknowledgement (an
+// empty element either way): "<handshake/>", "<handshake></handshake>", with
+// white space inside.
+func componentInitiator(ack string) transcript {
 	secret := []byte("s3cr3t")
 	return transcript{
-		name: "component handshake/initiator",
+		name: "component handshake/initiator (acknowledged with " + ack + ")",
 		start: func(ctx context.Context, rw io.ReadWriter, st *steps) (*xmpp.Session, error) {
 			return component.NewSession(ctx, jid.MustParse("comp.example.net"), secret, rw)
 		},
@@ -638,7 +641,7 @@ func componentInitiator() transcript {
 				if !bytes.Contains(fresh, []byte(want)) {
 					return []byte(`<stream:error><not-authorized xmlns="urn:ietf:params:xml:ns:xmpp-streams"/></stream:error>`)
 				}
-				return []byte(`<handshake/>`)
+				return []byte(ack)
 			}
 			return nil
 		},
@@ -653,7 +656,9 @@ func transcripts() []transcript {
 		fullReceiver(false, false, false),
 		fullInitiator(true, false, false, false),
 		fullReceiver(true, false, false),
-		componentInitiator(),
+		componentInitiator(`<handshake/>`),
+		componentInitiator(`<handshake></handshake>`),
+		componentInitiator("<handshake>\n</handshake>"),
 		fullInitiator(false, true, false, false),
 		fullReceiver(false, true, false),
 		bidiInitiator(),
@@ -1276,7 +1281,7 @@ func withRefusal(tr transcript, m int, cond string) transcript {
 func TestC04StreamRefused(t *testing.T) {
 	ev.Begin(t)
 	for _, tr0 := range []transcript{plainInitiator(false), plainInitiator(true), fullInitiator(false, false, false, false), fullReceiver(false, false, false),
-		fullInitiator(true, false, false, false), fullReceiver(true, false, false), componentInitiator(), bidiInitiator(), viaWrapper(fullInitiator(false, false, false, false))} {
+		fullInitiator(true, false, false, false), fullReceiver(true, false, false), componentInitiator(`<handshake/>`), componentInitiator(`<handshake></handshake>`), bidiInitiator(), viaWrapper(fullInitiator(false, false, false, false))} {
 		base0 := baseline(t, tr0)
 		for m := 1; m <= len(base0.msgs); m++ {
 			cond := []string{"host-unknown", "policy-violation", "system-shutdown"}[m%3]
